@@ -118,6 +118,10 @@ def _dec(v: Any) -> Union[str, bytes]:
     return v if isinstance(v, str) else bytes.fromhex(v['hex'])
 
 
+ODD_ROOT_NAMES = ['index', 'classIndex', 'moduleIndex', 'nameIndex', 'undoccedSummary', 'objects', 'apidocs', 'searchindex', 'fullsearchindex', 'search', 'lunr', 'pydoctor', 'ajax',
+                  'bootstrap', '__main__', 'setup', 'Index', 'INDEX', 'mod', 'dep', 'fonts', 'extra', 'sidebartoggle', 'all', 'test', '_private', '__dunder__', 'é']
+
+
 def st_tree(clean: bool = False):
     """clean=True: only grammar-generated (parsable) modules, no raw byte files, no size class: used by the
     rendering checks (C10-C12, C17, C18) which need projects, not robustness inputs."""
@@ -132,10 +136,22 @@ def st_tree(clean: bool = False):
 
     @st.composite
     def t(draw):
-        layout = draw(st.sampled_from(['flat', 'package', 'package', 'package', 'roots']))
+        layout = draw(st.sampled_from(['flat', 'package', 'package', 'package', 'roots', 'oddnames']))
         files: Dict[str, Any] = {}
         roots: List[str]
-        if layout == 'flat':
+        if layout == 'oddnames':
+            # root modules / packages whose names coincide with files pydoctor writes itself, or are otherwise special
+            names = draw(st.lists(st.sampled_from(ODD_ROOT_NAMES), min_size=1, max_size=3, unique=True))
+            roots = []
+            for nm in names:
+                if draw(st.integers(0, 3)) == 0:
+                    files[nm + '/__init__.py'] = draw(src)
+                    files[nm + '/' + draw(st.sampled_from(ODD_ROOT_NAMES)) + '.py'] = draw(src)
+                    roots.append(nm)
+                else:
+                    files[nm + '.py'] = draw(src)
+                    roots.append(nm + '.py')
+        elif layout == 'flat':
             files['mod.py'] = draw(src)
             files['dep.py'] = DEP_SRC if draw(st.booleans()) else draw(src)
             roots = ['mod.py', 'dep.py']
@@ -158,9 +174,9 @@ def st_tree(clean: bool = False):
                 files['other/__init__.py'] = draw(src)
                 roots = draw(st.permutations(['pkg', 'dep.py', 'other']))
         for name, data in ([] if clean else draw(st.lists(st.sampled_from(RAW_FILES), max_size=2, unique_by=lambda x: x[0]))):
-            d = 'pkg/' if layout != 'flat' else ''
+            d = 'pkg/' if layout not in ('flat', 'oddnames') else ''
             files[d + name] = {'hex': data.hex()}
-            if layout == 'flat' and name.endswith('.py'):
+            if layout in ('flat', 'oddnames') and name.endswith('.py'):
                 roots = list(roots) + [name]
         args = ['--docformat=' + draw(st.sampled_from(DOCFORMATS))]
         if draw(st.integers(0, 3)) == 0:
